@@ -23,7 +23,7 @@ pub const PLANE_NAME: &str = "plane";
 /// Open (or create) the RocksDB store below `dir` exactly as the server does
 /// (server/swimos_server_app/src/server/builder: `open_rocks_store(path, options)` then
 /// `store.open_plane(plane.name)` in server/runtime).
-pub fn open_rocks(dir: &Path) -> Result<impl PlanePersistence, StoreError> {
+pub fn open_rocks(dir: &Path) -> Result<impl PlanePersistence + Clone + Send + Sync + 'static, StoreError> {
     let server = swimos_rocks_store::open_rocks_store(Some(dir.to_path_buf()), swimos_rocks_store::default_db_opts())?;
     server.open_plane(PLANE_NAME)
 }
@@ -91,6 +91,9 @@ pub struct Stats {
     pub clear_nonempty: bool,
     pub key_prefix_pair: bool,
     pub id_collision: bool,
+    pub max_map: usize,
+    pub max_removed_run: usize,
+    pub max_cleared: usize,
     pub abandoned_while_running: bool,
     pub two_outstanding: bool,
     pub heir_abandoned: bool,
@@ -672,6 +675,9 @@ where
                 let id = self.id(item)?;
                 let agent = self.items[item].agent;
                 let is_map = self.items[item].map;
+                if let M::Map(m) = &self.model[item] {
+                    self.stats.max_cleared = self.stats.max_cleared.max(m.len());
+                }
                 if is_map && !self.model[item].is_empty() {
                     self.stats.clear_nonempty = true;
                     if self.nonempty_maps() >= 2 {
@@ -693,6 +699,59 @@ where
             Op::Read(sel, prefix) => {
                 let item = pick_index(*sel, n_items);
                 self.check_item(item, &prefix.0, true, "read")?;
+            }
+            Op::Fill(sel, n, tag) => {
+                let item = pick_index(*sel, n_items);
+                let id = self.id(item)?;
+                let agent = self.items[item].agent;
+                let is_map = self.items[item].map;
+                let node = self.nodes[agent].as_mut().unwrap();
+                let mut res = Ok(());
+                if is_map {
+                    for i in 0..*n as u32 {
+                        res = node.update_map(id, &bulk_key(i), &bulk_val(i, *tag));
+                        if res.is_err() {
+                            break;
+                        }
+                    }
+                } else {
+                    res = node.put_value(id, &[*tag]);
+                }
+                if let Err(e) = res {
+                    return Err(self.store_err(if is_map { "update_map" } else { "put_value" }, Some(item), e));
+                }
+                self.model[item].apply(op);
+                if let M::Map(m) = &self.model[item] {
+                    self.stats.max_map = self.stats.max_map.max(m.len());
+                }
+                self.sweep(Some(item), false, "after a bulk fill")?;
+            }
+            Op::RemoveRun(sel, from, n) => {
+                let item = pick_index(*sel, n_items);
+                let id = self.id(item)?;
+                let agent = self.items[item].agent;
+                let is_map = self.items[item].map;
+                if let M::Map(m) = &self.model[item] {
+                    let present = (*from as u32..*from as u32 + *n as u32).filter(|i| m.contains_key(&bulk_key(*i))).count();
+                    self.stats.max_removed_run = self.stats.max_removed_run.max(present);
+                }
+                let node = self.nodes[agent].as_mut().unwrap();
+                let mut res = Ok(());
+                if is_map {
+                    for i in *from as u32..*from as u32 + *n as u32 {
+                        res = node.remove_map(id, &bulk_key(i));
+                        if res.is_err() {
+                            break;
+                        }
+                    }
+                } else {
+                    res = node.delete_value(id);
+                }
+                if let Err(e) = res {
+                    return Err(self.store_err(if is_map { "remove_map" } else { "delete_value" }, Some(item), e));
+                }
+                self.model[item].apply(op);
+                self.sweep(Some(item), false, "after removing a run of keys")?;
             }
             Op::ReopenNode(sel) => {
                 let agent = pick_index(*sel, n_agents);
@@ -880,6 +939,14 @@ fn case_classes(v: &mut Verdict, case: &Case, uris: &[String], items: &[FlatItem
     v.class_if(stats.superseded_error, "superseded-request-failed");
     v.class_if(stats.heir_abandoned, "heir-abandoned");
     v.class_if(stats.second_handle, "two-handles-one-uri");
+    v.class_if(stats.max_map >= 65, "bulk:map>=65-entries");
+    v.class_if(stats.max_map >= 2049, "bulk:map>=2049-entries");
+    v.class_if(stats.max_map >= 4097, "bulk:map>=4097-entries");
+    v.class_if(stats.max_cleared >= 65, "bulk:clear-of>=65-entries");
+    v.class_if((1..=64).contains(&stats.max_cleared) && stats.max_map >= 60, "bulk:clear-of-60..64-entries");
+    v.class_if(stats.max_removed_run >= 65, "bulk:removed-run>=65");
+    v.class_if(stats.max_removed_run >= 2049, "bulk:removed-run>=2049");
+    v.class_if(stats.max_removed_run >= 4097, "bulk:removed-run>=4097");
     v.class_if(uris.len() >= 2, "agents>=2");
     v.class_if(case.prealloc > 0, "ids-around-256");
     v.class_if(items.iter().any(|i| i.name.is_empty()), "empty-name");
@@ -926,7 +993,7 @@ where
     case_classes(&mut v, case, uris, items, &stats);
     // Non-trivial: a reopen (node store or whole store) while data is stored, or a clear of a
     // populated map while at least two maps are populated.
-    if stats.reopen_with_data || stats.clear_interleaved {
+    if stats.reopen_with_data || stats.clear_interleaved || stats.max_cleared >= 65 || stats.max_removed_run >= 65 {
         v.nontrivial();
     }
     v
@@ -959,7 +1026,9 @@ pub fn run(ctx: &mut Ctx) {
          from adversarial name, uri and key pools plus random ones; every mutating op is followed by a sweep that \
          reads every item used so far and compares it with the model. Non-trivial = a reopen (node store, \
          hand-over or whole store; kill tier: a SIGKILL that landed before the history finished) while data is \
-         stored, or a clear of a populated map while >= 2 maps are populated. Distinct by Debug form of the case.",
+         stored, or a clear of a populated map while >= 2 maps are populated, or (bulk cases, 1 in 12: one map filled \
+         with up to 6000 entries) a clear of >= 65 entries / a run of >= 65 point-removed consecutive keys; \
+         rocks-threads: >= 2 threads registering new names concurrently followed by a reopen. Distinct by Debug form of the case.",
     );
     ctx.assume("get_value of an item without data returns Ok(None) (the runtime's ValueInit sends a command iff Some)");
     ctx.assume("read_map order is not specified by the trait: entries are compared as a map, duplicates are an error");
@@ -968,11 +1037,13 @@ pub fn run(ctx: &mut Ctx) {
     let _ = std::fs::create_dir_all(scratch_base());
 
     let n = ctx.pick(12_000, 400_000);
-    ctx.prop("rocks-model", n, arb_case, check_rocks);
+    ctx.prop("rocks-model", n, arb_model_case, check_rocks);
     let n = ctx.pick(200_000, 6_000_000);
-    ctx.prop("mem-model", n, arb_case, check_mem);
+    ctx.prop("mem-model", n, arb_model_case, check_mem);
     let n = ctx.pick(3_000, 100_000);
     ctx.prop("rocks-kill", n, kill::arb_kill_case, kill::check_kill);
+    let n = ctx.pick(3_000, 150_000);
+    ctx.prop("rocks-threads", n, crate::threads::arb_thread_case, crate::threads::check_threads);
 
     let _ = std::fs::remove_dir_all(scratch_base());
 }
